@@ -75,6 +75,7 @@ type VC struct {
 	havocked      map[string]bool
 	usedContracts map[string]bool
 	assumedFacts  map[string]bool
+	constGlobals  map[*ssa.Global]Term
 	bindErrors    []string
 	specDepth     int
 	safety        bool
